@@ -11,34 +11,44 @@ package fox
 //@   requires fox != nil
 //@   ensures result == published[&fox.tree]
 
-//@ func (*Router).txnWith props C04,C05,C06
+//@ func (*Router).txnWith props C04,C05,C06,C03
 //@   requires fox != nil && published[&fox.tree] != nil
 //@   requires write ==> !held[&fox.mu]
-//@   modifies held[&fox.mu], lockOps[&fox.mu]
+//@   modifies held[&fox.mu], lockOps[&fox.mu], snapRef
+//@   ensures snap: snapRef == nextref && cacheOK(result.rootTxn)
 //@   ensures result != nil && fresh(result) && result.fox == fox && result.write == write && result.rootTxn != nil && fresh(result.rootTxn)
 //@   ensures locked: write ==> held[&fox.mu]
 //@   ensures nolock: !write ==> held[&fox.mu] == old(held[&fox.mu]) && lockOps[&fox.mu] == old(lockOps[&fox.mu])
 //@   ensures from-published: published[&fox.tree] != nil ==> result.rootTxn.tree == published[&fox.tree] && result.rootTxn.root == published[&fox.tree].root && result.rootTxn.size == published[&fox.tree].size
 //@   assert-at call (*Router).getRoot#1 : lock-then-load: write ==> held[&fox.mu]
 
-//@ func (*iTree).txn props C04
+//@ func (*iTree).txn props C04,C03
 //@   requires t != nil
+//@   modifies snapRef
+//@   ghost-set return : snapRef = nextref
+//@   ensures snap: snapRef == nextref && cacheOK(result)
 //@   ensures result != nil && fresh(result) && result.tree == t && result.root == t.root && result.size == t.size && result.maxParams == t.maxParams && result.depth == t.depth && result.cache == cache && result.writable == nil
 
 //@ func (*tXn).commit props C04,C03
 //@   requires t != nil && t.tree != nil
-//@   modifies t.writable
+//@   modifies t.writable, snapRef
+//@   ghost-set return : snapRef = nextref
+//@   ensures snap: snapRef == nextref && cacheOK(t)
 //@   ensures result != nil && fresh(result) && result.root == t.root && result.size == t.size && result.maxParams == t.maxParams && result.depth == t.depth && result.fox == t.tree.fox
 //@   ensures reset: t.writable == nil
 
 //@ func (*tXn).snapshot props C03
 //@   requires t != nil
-//@   modifies t.writable
+//@   modifies t.writable, snapRef
+//@   ghost-set return : snapRef = nextref
+//@   ensures snap: snapRef == nextref && cacheOK(t)
 //@   ensures result == t.root && t.writable == nil
 
 //@ func (*tXn).clone props C03,C04
 //@   requires t != nil
-//@   modifies t.writable
+//@   modifies t.writable, snapRef
+//@   ghost-set return : snapRef = nextref
+//@   ensures snap: snapRef == nextref && cacheOK(t) && cacheOK(result)
 //@   ensures t.writable == nil
 //@   ensures result != nil && fresh(result) && result.tree == t.tree && result.root == t.root && result.size == t.size && result.maxParams == t.maxParams && result.depth == t.depth && result.writable == nil
 
@@ -47,7 +57,7 @@ package fox
 
 //@ func (*Txn).Commit props C04,C05,C06
 //@   requires txnOK(txn)
-//@   modifies txn.rootTxn, txn.rootTxn.writable, held[&txn.fox.mu], lockOps[&txn.fox.mu], published[&txn.fox.tree], pubCount[&txn.fox.tree]
+//@   modifies txn.rootTxn, txn.rootTxn.writable, held[&txn.fox.mu], lockOps[&txn.fox.mu], published[&txn.fox.tree], pubCount[&txn.fox.tree], snapRef
 //@   ensures settled: txn.write ==> txn.rootTxn == nil
 //@   ensures published: old(txn.write && txn.rootTxn != nil) ==> pubCount[&txn.fox.tree] == old(pubCount[&txn.fox.tree]) + 1 && fresh(published[&txn.fox.tree]) && published[&txn.fox.tree].root == old(txn.rootTxn.root) && published[&txn.fox.tree].size == old(txn.rootTxn.size) && published[&txn.fox.tree].maxParams == old(txn.rootTxn.maxParams) && published[&txn.fox.tree].depth == old(txn.rootTxn.depth)
 //@   ensures unlocked: old(txn.write && txn.rootTxn != nil) ==> !held[&txn.fox.mu]
@@ -62,10 +72,11 @@ package fox
 //@   ensures unlocked: old(txn.write && txn.rootTxn != nil) ==> !held[&txn.fox.mu]
 //@   ensures noop: !old(txn.write && txn.rootTxn != nil) ==> held[&txn.fox.mu] == old(held[&txn.fox.mu]) && lockOps[&txn.fox.mu] == old(lockOps[&txn.fox.mu]) && txn.rootTxn == old(txn.rootTxn)
 
-//@ func (*Router).Txn props C04,C06
+//@ func (*Router).Txn props C04,C06,C03
 //@   requires fox != nil && published[&fox.tree] != nil
 //@   requires write ==> !held[&fox.mu]
-//@   modifies held[&fox.mu], lockOps[&fox.mu]
+//@   modifies held[&fox.mu], lockOps[&fox.mu], snapRef
+//@   ensures snap: snapRef == nextref && cacheOK(result.rootTxn)
 //@   ensures result != nil && fresh(result) && result.fox == fox && result.write == write && result.rootTxn != nil
 //@   ensures locked: write ==> held[&fox.mu]
 //@   ensures nolock: !write ==> held[&fox.mu] == old(held[&fox.mu]) && lockOps[&fox.mu] == old(lockOps[&fox.mu])
@@ -105,12 +116,12 @@ package fox
 
 //@ func (*Router).Updates props C04,C15
 //@   requires fox != nil && fn != nil && published[&fox.tree] != nil && !held[&fox.mu] && panicking == nil
-//@   modifies heap, held[&fox.mu], lockOps[&fox.mu], published[&fox.tree], pubCount[&fox.tree]
+//@   modifies heap, held[&fox.mu], lockOps[&fox.mu], published[&fox.tree], pubCount[&fox.tree], snapRef
 //@   ensures unlocked: !held[&fox.mu]
 //@   ensures committed: result == nil ==> pubCount[&fox.tree] == old(pubCount[&fox.tree]) + 1
 //@   ensures aborted: result != nil ==> pubCount[&fox.tree] == old(pubCount[&fox.tree]) && published[&fox.tree] == old(published[&fox.tree])
 
 //@ func (*Router).View props C04,C06
 //@   requires fox != nil && fn != nil && published[&fox.tree] != nil && panicking == nil
-//@   modifies heap
+//@   modifies heap, snapRef
 //@   ensures nolock: held[&fox.mu] == old(held[&fox.mu]) && lockOps[&fox.mu] == old(lockOps[&fox.mu]) && pubCount[&fox.tree] == old(pubCount[&fox.tree]) && published[&fox.tree] == old(published[&fox.tree])
